@@ -225,7 +225,12 @@ def case_cmp(r):
             ops.append("cmp %s %d %s %s %d" % (mode, comp, H(st), H(kb), kc))
             ops.append("lxcmp %s %d %s %d %s %d" % (mode, comp, H(sb), sc, H(kb), kc))
 
-    def oracle(out, keys=keys, mode=mode):
+    trip = [(i, j, k) for i in range(3) for j in range(3) for k in range(3) if i != j]
+    trip = r.sample(trip, 6)
+    for (i, j, k) in trip:
+        ops.append("lxcmp2 %s %d %s %d %s %d %s %d" % (mode, comp, H(keys[i][0]), keys[i][1], H(keys[j][0]), keys[j][1], H(keys[k][0]), keys[k][1]))
+
+    def oracle(out, keys=keys, mode=mode, trip=trip):
         full = [[0] * 3 for _ in range(3)]
         for i in range(3):
             for j in range(3):
@@ -235,6 +240,12 @@ def case_cmp(r):
                 if lw[1] != w[2]:
                     return "cached-prefix comparison %s differs from full-key comparison %s for stored=%s key=%s (mode %s)" % (
                         lw[1], w[2], keys[i], keys[j], mode)
+        for t, (i, j, k) in enumerate(trip):
+            w = out[18 + t].split()
+            exp = ["same", "same"] if full[i][j] == 0 else [str(full[j][k]), str(full[i][k])]
+            if w[1:] != exp:
+                return ("node holding %s and %s, one of them deleted again (cached first key refreshed): lookup key %s compares %s with the node, "
+                        "full-key comparison with the remaining key says %s (mode %s)" % (keys[i], keys[j], keys[k], w[1:], exp, mode))
         for i in range(3):
             for j in range(3):
                 same = keys[i] == keys[j]
